@@ -59,7 +59,36 @@ Inductive case :=
 | CParse (durs : tab (option Z)) (res : tab bool) (ints : tab (option Z)) (l : string) (obs : item)
 | CText (durs : tab (option Z)) (res : tab bool) (ints : tab (option Z)) (text : list chunk)
         (obs : list item) (nerr : N) (failed : bool) (too_long : bool)
-| CFilter (mt : tab (list string)) (evs : list fev) (obs : list string).
+| CFilter (mt : tab (list string)) (evs : list fev) (obs : list string)
+(* FilterLines in front of a log channel of capacity cap whose consumer read pause lines, then did
+   not read for a while, then read on: obs is what had arrived when the history was complete *)
+| CStalled (mt : tab (list string)) (cap pause : nat) (evs : list fev) (obs : list string)
+(* the context was cancelled while the consumer was not reading: obs is what arrived *)
+| CCancelled (mt : tab (list string)) (evs : list fev) (obs : list string).
+
+(* one concrete schedule of the pipeline model: the consumer reads until it has pause lines, then
+   the filter moves for as long as it can (the channel fills up, the send blocks), and only then
+   the consumer reads again.  (Proofs/Filter_proofs.v: every schedule delivers the same lines.) *)
+Definition first_move (mt : string -> string -> bool) (cap : nat) (p : pipe) (order : list pact) : pipe :=
+  fold_right (fun a k => match pstep mt cap p a with Some q => q | None => k end) p order.
+
+Fixpoint drive (mt : string -> string -> bool) (cap pause fuel : nat) (p : pipe) : pipe :=
+  match fuel with
+  | O => p
+  | S k =>
+      if pdone p then p
+      else drive mt cap pause k
+             (first_move mt cap p
+                (if (List.length (deliv p) <? pause)%nat then [StepConsumer; StepRendezvous; StepFilter]
+                 else [StepFilter; StepConsumer; StepRendezvous]))
+  end.
+
+Fixpoint prefixb (a b : list string) : bool :=
+  match a, b with
+  | [], _ => true
+  | x :: a', y :: b' => (x =? y) && prefixb a' b'
+  | _, [] => false
+  end.
 
 Definition case_ok (c : case) : bool :=
   match c with
@@ -71,12 +100,17 @@ Definition case_ok (c : case) : bool :=
       && Bool.eqb tl too_long
   | CFilter mt evs obs =>
       list_eqb String.eqb (frun (match_tab mt) fnew evs) obs
+  | CStalled mt cap pause evs obs =>
+      let p := drive (match_tab mt) cap pause (3 * List.length evs + 3) (pinit evs) in
+      pdone p && list_eqb String.eqb (deliv p) obs
+  | CCancelled mt evs obs => prefixb obs (frun (match_tab mt) fnew evs)
   end.
 
 (* non-trivial: a parse case whose line the model does NOT simply send verbatim (it is read as a
    comment or a command, valid or not); a file with both an error and a non-error item, or one
    that the scanner refuses; a filter
-   history in which the model blocks at least one line and passes at least one *)
+   history in which the model blocks at least one line and passes at least one; a stalled-consumer
+   history with more permitted lines than the log channel holds *)
 Definition lines_of (evs : list fev) : list string :=
   flat_map (fun e => match e with Line s => [s] | Act _ => [] end) evs.
 
@@ -87,9 +121,12 @@ Definition case_nontrivial (c : case) : bool :=
   | CText durs res ints text _ _ _ _ =>
       let (its, tl) := load_text (dur_tab durs) (re_tab res) (int_tab ints) (text_of text) in
       tl || (existsb is_error its && existsb (fun i => negb (is_error i)) its)
-  | CFilter mt evs _ =>
+  | CFilter mt evs _ | CCancelled mt evs _ =>
       let out := frun (match_tab mt) fnew evs in
       negb (is_nil out) && (List.length out <? List.length (lines_of evs))%nat
+  | CStalled mt cap _ evs _ =>
+      (* more permitted lines than the channel holds: the model's filter does block *)
+      (cap <? List.length (frun (match_tab mt) fnew evs))%nat
   end.
 
 Definition mismatches (cs : list case) : list N := mismatch_idx case_ok 0 cs.
